@@ -314,3 +314,27 @@ func TestD14SnapshotRefusedAfterFailedEvaluation(t *testing.T) {
 		t.Fatalf("snapshot allowed after a (failed) evaluation; it contains the token's fact: %v", bytes.Contains(snap, []byte("secret-of-the-token")))
 	}
 }
+
+// D15 (C05): two clones of one world must not share storage for the facts they add.
+func TestD15CloneSiblingsKeepTheirOwnFacts(t *testing.T) {
+	syms := &datalog.SymbolTable{}
+	p := func(n int64) datalog.Fact {
+		return datalog.Fact{Predicate: datalog.Predicate{Name: datalog.String(syms.Insert("p")), Terms: []datalog.Term{datalog.Integer(n)}}}
+	}
+	base := datalog.NewWorld(datalog.WithMaxDuration(time.Hour))
+	for i := int64(0); i < 3; i++ {
+		base.AddFact(p(i)) // length 3, capacity 4: one spare slot
+	}
+	a, b := base.Clone(), base.Clone()
+	a.AddFact(p(100))
+	b.AddFact(p(200))
+	if err := a.Run(syms); err != nil {
+		t.Fatal(err)
+	}
+	for _, f := range *a.Facts() {
+		if f.Predicate.Equal(p(100).Predicate) {
+			return
+		}
+	}
+	t.Fatalf("world A lost the fact it was given; it holds %v", *a.Facts())
+}
